@@ -178,8 +178,9 @@ def judge_cells(cells):
             key = "wrong-exception/%s/%s" % (got[4:], why or "valid")
         elif exp == "ACCEPT" and got == "REJECT":
             key = "valid-rejected/%s" % classify_valid(cols)
-        elif exp == "ACCEPT" and got == "ACCEPT-badpost":
-            key = "accepted-not-normalised/%s" % classify_valid(cols)
+        elif exp in ("ACCEPT", "EITHER") and got == "ACCEPT-badpost":
+            # also for the don't-care cells: *if* a definition is accepted, it must come out normalised (x0 strictly inside)
+            key = "accepted-not-normalised/%s" % (classify_valid(cols) if exp == "ACCEPT" else why)
         elif exp == "REJECT" and got.startswith("ACCEPT"):
             key = "invalid-accepted/%s" % why
         if key:
